@@ -1,14 +1,14 @@
 SPECIFICATION Spec
 CONSTANTS
-  Mode = "dec"
+  Mode = "vecseq"
   Step = 257
-  DecRange = 200
+  DecRange = 40000
   U8 <- Utf8
   WR <- Write
   TD <- ToDec
-  NT <- NumTextBug
+  NT <- NumText
   NTL <- NumTextLoc
   CV <- Convert
   RV <- ReadVec
-INVARIANTS LawDecBigRoundTrip
+INVARIANTS LawVecSeq
 CHECK_DEADLOCK FALSE
